@@ -47,6 +47,8 @@ JudgeA(e) ==
     Bad(e, "Converged", Settled(e) => (Len(e.fresh) = 0 \/ e.inc = e.fresh[1])) \cup
     \* C05: exactly the current model on disk -- nothing stale, nothing missing, nothing twice
     Bad(e, "DiskExact", Settled(e) => ((Len(e.freshx) = 0 \/ e.incx = e.freshx[1]) /\ Len(e.dups) = 0)) \cup
+    \* ... and slot by slot what the controller itself holds in memory: the next dynamic update addresses the servers by these names
+    Bad(e, "DiskIsModel", Settled(e) => Len(e.slots) = 0) \cup
     \* C07: the files of the incremental and of the fresh controller are loadable
     (IF HasFacts(e) /\ Settled(e) THEN Bad(e, "WellFormed:" \o HA!FirstBroken(e.facts), HA!WellFormed(e.facts)) ELSE {}) \cup
     (IF "ffacts" \in DOMAIN e THEN Bad(e, "WellFormedFresh:" \o HA!FirstBroken(e.ffacts), HA!WellFormed(e.ffacts)) ELSE {}) \cup
